@@ -156,6 +156,12 @@ impl<FB: FrameBuffer> ZXScreen<FB> {
         }
     }
 
+    /// Moves the beam to the position it has at `clocks` from the frame start
+    /// without rendering anything
+    pub fn set_beam_position(&mut self, clocks: usize) {
+        self.last_blocks = BlocksCount::from_clocks(clocks, self.machine);
+    }
+
     /// renders some  8x1 blocks
     /// `clocks` - current  clocks count form frame start.
     /// if clocks < previous call clocks then discard processing
